@@ -719,6 +719,8 @@ def _returns_literal(fn: FunctionInfo, ctx: Context | None = None,
         return False
     for x in ast.walk(body[0].value):
         if isinstance(x, ast.Call):
+            if isinstance(x.func, ast.Name) and x.func.id in PURE_CALLS:
+                continue
             tg = ctx.internal_targets(fn, x) if ctx is not None else []
             if not tg or not all(_returns_literal(t, ctx, depth + 1)
                                  for t in tg):
